@@ -113,7 +113,9 @@ def judge(scn, before, after, outside_before, outside_after, t_end):
             if f in s:
                 viol.append((g, {"rule": g, "file": f, "needed_by": sorted(
                     "%s/%s-%s" % (pk["cat"], pk["pn"], pk["ver"]) for pk in (scn["installed"] if g == "keep-installed" else pkgs)
-                    if f in need(pk)), "needed_by_targeted": f in need_targeted, "with_targets": bool(o["targets"])}))
+                    if f in need(pk)), "needed_by_targeted": f in need_targeted, "with_targets": bool(o["targets"]),
+                    "attributable_to_targets": (None if not o["targets"] or vacuous else
+                                                any(norm(f).startswith(p) for p in prefixes))}))
         if f in raw_only and (o["E"] or o["f"] or o["excludes"]):
             facts["unspecified"].append("removed file is only a USE-conditional (raw) distfile of a repository package")
         if f in inst_only_fetch and f not in keep["keep-fetch-restricted"]:
